@@ -251,6 +251,9 @@ class Real(object):
         return hashlib.sha1(json.dumps(s, sort_keys=True, default=str).encode()).hexdigest()
 
     def new(self):
+        pp = self.persist_points
+        if pp is not None and pp != "all" and 0 in pp:
+            self._persist_restore()          # persisted right after construction, before any call
         return self._call(self.mkcall("new"), lambda: self.c.get_workflow_status())
 
     def req(self, status):
